@@ -60,6 +60,7 @@ def bfs(system, depth, nproc=None, time_cap=None, max_issues=200, chunk=24):
     frontier = [()]
     stats = {}
     issues = []
+    n_known = n_viol = 0
     transitions = 0
     leaves = 0
     completed_depth = 0
@@ -82,10 +83,18 @@ def bfs(system, depth, nproc=None, time_cap=None, max_issues=200, chunk=24):
                     level_tr += r["transitions"]
                     leaves += r.get("leaves", 0)
                     merge_stats(stats, r.get("stats", {}))
-                    if len(issues) < max_issues:
-                        issues.extend(r.get("issues", ()))
-                    else:
-                        stats["issues_dropped"] = stats.get("issues_dropped", 0) + len(r.get("issues", ()))
+                    # listed known findings must never crowd out violations: separate budgets
+                    for it in r.get("issues", ()):
+                        if it.get("kind") == "known":
+                            if n_known < max_issues:
+                                issues.append(it)
+                            n_known += 1
+                        else:
+                            if n_viol < max_issues:
+                                issues.append(it)
+                            else:
+                                stats["violations_not_listed"] = stats.get("violations_not_listed", 0) + 1
+                            n_viol += 1
                     for dg, opi in r["children"]:
                         if dg not in seen:
                             seen.add(dg)
@@ -124,6 +133,8 @@ def bfs(system, depth, nproc=None, time_cap=None, max_issues=200, chunk=24):
         "per_depth": per_depth,
         "stats": stats,
         "issues": issues,
+        "known_occurrences": n_known,
+        "violation_occurrences": n_viol,
         "wall_s": time.time() - t0,
     }
 
